@@ -1,12 +1,15 @@
 import PycsepVerif.Proto
 import PycsepVerif.Model.PairedTests
 import PycsepVerif.Model.PairedPub
+import PycsepVerif.Model.PairedRanks
 /-! driver ops of C08. Floats travel as IEEE bit patterns, rationals as n/d.
   c08_t   rA rB N NA NB tcrit            -> "ig t lower upper var"          (Float instance of tTest)
   c08_bin dataA dataB ev NA NB tcrit     -> "ig t lower upper var n_active active-list"  (binaryT; nb = |dataA|)
   c08_w   x m                            -> "count t2 mn4 se24 z"           (exact wStats; z = Float wZ of them)
   c08_pubt baseA fA daysA baseB fB daysB ev scale tcrit -> "ig t lower upper var nA nB"   (pairedTPub; ev = flat bin indices)
   c08_pubb baseA fA daysA baseB fB daysB ev scale tcrit -> "ig t lower upper var n_active active-list" (binaryTPub)
+  c08_rank x                             -> "2r1,2r2,..."                   (rankdata2: SciPy's sort-based algorithm, doubled ranks)
+  c08_ties x m                           -> "byRank byValue"                (tieTermRanks / tieTerm of |x - m| without zeros)
   c08_pubw LA LB n1 n2 n                 -> "count t2 mn4 se24 z"           (wStatsPub on the float logs, rationals)
   c08_midx edges cells mags              -> flat bin index of every event, `none` if below the first edge (flatIdx) -/
 namespace Drive.C08
@@ -37,6 +40,16 @@ def handle : List String → Option String
           let s := wStats xs m
           let z : Float := wZ (Float.ofNat s.t2 / 2.0) (Float.ofNat s.mn4 / 4.0) (ratToFloat s.se24)
           s!"{s.count} {s.t2} {s.mn4} {showRat s.se24} {showFloat z}"
+      | _, _ => "bad-op")
+  | ["c08_rank", xs] => some (
+      match parseList? parseRat? xs with
+      | some xs => showList toString (rankdata2 xs)
+      | none => "bad-op")
+  | ["c08_ties", xs, m] => some (
+      match parseList? parseRat? xs, parseRat? m with
+      | some xs, some m =>
+          let l := (removeZeros (xs.map (fun a => Soft64.fsub a m))).map absQ
+          s!"{tieTermRanks l} {tieTerm l}"
       | _, _ => "bad-op")
   | ["c08_pubt", ba, fa, da, bb, fb, db, ev, sc, tc] => some (
       match parseList? parseFloat? ba, parseFloat? fa, da.toNat?, parseList? parseFloat? bb, parseFloat? fb, db.toNat?,
